@@ -248,19 +248,16 @@ def o8_inliners(check: Check, repo: Repo) -> None:
 
 
 def o9_skip_rule(check: Check, repo: Repo) -> None:
-    fn = repo.func(OPT, "Optimizer._optimize_skip_rule")
-    src = ast.unparse(fn)
-    ok = "if comment and whitespace:\n" in src and "return" in src.split("if comment and whitespace:")[1][:40]
-    check.oblige("O9", f"{OPT}::Optimizer._optimize_skip_rule", "no fusion when both WHITESPACE and COMMENT exist" if ok else "SKIP is fused although both trivia rules exist", ok)
-    ok = "comment.modifier & SILENT" in src and "Rule('SKIP', Repeat(comment.expression), SILENT_ATOMIC)" in src
-    check.oblige("O9", f"{OPT}::Optimizer._optimize_skip_rule", "a lone silent COMMENT becomes SKIP = @_{ COMMENT-body* }" if ok else "COMMENT fusion changed (must be silent; SKIP = Repeat(body), silent and atomic)", ok)
-    ok = "whitespace.modifier & SILENT" in src and "isinstance(whitespace.expression, Choice)" in src and "OptimizedChoiceRepeat()" in src and "SILENT_ATOMIC" in src
-    check.oblige("O9", f"{OPT}::Optimizer._optimize_skip_rule", "a lone silent WHITESPACE choice becomes SKIP = @_{ regex* }" if ok else "WHITESPACE fusion changed", ok)
-    ocr = ast.unparse(repo.func(CHOICE, "OptimizedChoiceRepeat.build_optimized_pattern"))
-    check.oblige("O9", f"{CHOICE}::OptimizedChoiceRepeat", "the fused pattern is the starred union", "build_optimized_pattern(self.choices, '*')" in ocr)
-    pt = ast.unparse(repo.func("src/pest/state.py", "ParserState.parse_trivia"))
-    ok = "self.parser.rules.get('SKIP')" in pt and "return skip.parse(self, pairs)" in pt
-    check.oblige("O9", "src/pest/state.py::ParserState.parse_trivia", "the fused rule replaces the WHITESPACE/COMMENT loop" if ok else "parse_trivia no longer delegates to the fused rule", ok)
+    """When and how SKIP is fused is decided by O15 on model grammars, and that parse_trivia hands over to it by
+    the scripted evaluation of ParserState.parse_trivia (sa/triviasem.py), shared with C04."""
+    from ..triviasem import check_trivia
+
+    construct = "src/pest/state.py::ParserState.parse_trivia"
+    n, bad = check_trivia(repo, construct)
+    skipbad = [(c, m) for c, m in bad if "SKIP" in m]
+    check.count("trivia_model_scenarios", n)
+    check.oblige("O9", construct, f"with a fused SKIP rule parse_trivia consults exactly that rule, on every call ({n} scripted scenarios)" if not skipbad else f"parse_trivia: {skipbad[0][0]}", not skipbad,
+                 finding=Finding("O9", construct, f"parse_trivia: {skipbad[0][0]}" if skipbad else "", f"parse_trivia: {skipbad[0][0]}: {skipbad[0][1]}" if skipbad else "", {}))
 
 
 def o10_truthy(check: Check, repo: Repo, rep) -> None:
